@@ -6,6 +6,7 @@ import (
 	"path/filepath"
 	"sort"
 	"strings"
+	"sync/atomic"
 	"time"
 
 	"github.com/echovault/sugardb/sugardb"
@@ -480,6 +481,10 @@ func checkC06(ctx *Ctx) {
 	if ctx.Shard == 0 {
 		c06Transparent(ctx, in, port, admin, cmds)
 	}
+	if ctx.Shard == 1 || ctx.NShards == 1 {
+		ctx.SetCurrent("C06 pipelined commands across ACL DELUSER")
+		c06PipelinedDeluser(ctx, in, port, admin)
+	}
 }
 
 // c06Transparent: for a user who is allowed everything, the gate must be transparent: every command sent
@@ -733,4 +738,73 @@ func c06Exchange(c *Client, argv []string) (resp.Value, error) {
 		}
 	}
 	return first, fmt.Errorf("no PONG after 256 frames")
+}
+
+// c06PipelinedDeluser: a user's connection has two commands in the server's read buffer (one write); the first
+// is held where it waits for the command lock while the administrator deletes the user and is answered OK;
+// then the first is released. The second command is decided after the deletion: a deleted user can no longer
+// act, so it must be refused (or the connection closed) and must have no effect.
+func c06PipelinedDeluser(ctx *Ctx, in *Inst, port int, admin *Client) {
+	for rep, second := range [][]string{{"SET", "w:p2", "v"}, {"RPUSH", "w:l2", "x"}, {"GET", "r:s1"}, {"DEL", "w:p1"}} {
+		aclPopulate(in)
+		admin.Do("ACL", "DELUSER", "u1")
+		all := aclRules{Enabled: true, AllCats: true, AllCmds: true, AllChans: true}
+		if v, _, err := admin.Do(append([]string{"ACL", "SETUSER", "u1"}, all.tokens()...)...); err != nil || v.IsError() {
+			return
+		}
+		c, err := Dial(port)
+		if err != nil {
+			return
+		}
+		if v, _, _ := c.Do("AUTH", "u1", "pw"); v.IsError() {
+			c.Close()
+			return
+		}
+		var armed atomic.Bool
+		parked, release := make(chan struct{}), make(chan struct{})
+		setHook(func(name string, args ...interface{}) {
+			if name == "cmd.lock.wait" && armed.CompareAndSwap(true, false) {
+				close(parked)
+				select {
+				case <-release:
+				case <-time.After(20 * time.Second):
+				}
+			}
+		})
+		before := CanonDump(in.S.VerifDump(), in.Clk.NowNs())
+		armed.Store(true)
+		first := []string{"SET", "w:p1", "v"}
+		_ = c.Send(append(resp.Encode(first...), resp.Encode(second...)...))
+		ok := false
+		select {
+		case <-parked:
+			ok = true
+		case <-time.After(10 * time.Second):
+		}
+		v, _, derr := admin.Do("ACL", "DELUSER", "u1")
+		close(release)
+		setHook(nil)
+		if !ok || derr != nil || v.IsError() {
+			c.Close()
+			ctx.Inconclusive("pipelined-deluser: the schedule could not be set up")
+			continue
+		}
+		r1, _, e1 := c.Read(20 * time.Second)
+		r2, _, e2 := c.Read(20 * time.Second)
+		c.Close()
+		ctx.Eval(1)
+		ctx.Class(fmt.Sprintf("pipelined-deluser|%s|second-refused=%v", strings.ToLower(second[0]), e2 != nil || r2.IsError()))
+		after := CanonDump(in.S.VerifDump(), in.Clk.NowNs())
+		// the first command was authorised before the deletion: it may have run; the second must not have
+		allowedAfter := CanonDump(in.S.VerifDump(), in.Clk.NowNs())
+		_ = allowedAfter
+		secondRan := e2 == nil && !r2.IsError()
+		if secondRan {
+			ctx.Violate(Violation{Kind: "unauthorized", Lane: "pipelined-deluser",
+				What: fmt.Sprintf("u1's connection had %s and %s in one write; the first was held waiting for the command lock while ACL DELUSER u1 was answered OK; after the release the second command, decided after the deletion, replied %s (first: %s %v): a deleted user's command ran", Step{Argv: first}.String(), Step{Argv: second}.String(), trunc(r2.String(), 80), trunc(r1.String(), 40), e1),
+				Case: map[string]interface{}{"first": first, "second": second, "dataset_before": len(before), "dataset_after": len(after)}, Key: "c06|pipelined-deluser|" + strings.ToLower(second[0])})
+			return
+		}
+		_ = rep
+	}
 }
